@@ -11,6 +11,7 @@ from collections import Counter
 
 import common  # noqa: F401
 from props import c13_fix as F
+from props import c13_modstate as M
 from props import c13_sched as S
 from props import c13_trace as T
 
@@ -92,6 +93,15 @@ def summary(events, label_owned=True):
 
 # ---- one traced request: ownership oracle + correspondence case -----------------------------------
 _RECENT = []   # the traced requests served earlier in this process (module-level state in pydap would link them)
+_BREAKS = []   # {"label", "spec", "url"}: a module-level container of pydap changed while this request was served
+
+
+def served(ctx, spec, url, before):
+    """module-level half of the ownership oracle: called after `url` was served, with the snapshot taken before"""
+    after = M.snapshot_all()
+    for label in M.changed(before, after):
+        _BREAKS.append({"label": label, "spec": spec, "url": url})
+    return after
 
 
 def traced_case(ctx, spec, url, kind, cases, tid=7):
@@ -100,7 +110,9 @@ def traced_case(ctx, spec, url, kind, cases, tid=7):
     app, handler, ds = F.make_app(spec)
     T.share(ds)
     snap = F.snapshot(ds)
+    mod = M.snapshot_all()
     out, tr = T.traced_call(app, url, "t%d" % tid, F.call)
+    served(ctx, spec, url, mod)
     case = {"oracle": "ownership", "spec": spec, "url": url}
     if tr.foreign:
         leaked = any(f[3] != T.SHARED for f in tr.foreign)   # object of an *earlier request*: replay needs those too
@@ -144,8 +156,10 @@ def run_correspondence(ctx, cases):
 def history_case(ctx, spec, urls, where):
     app, handler, ds = F.make_app(spec)
     snap = F.snapshot(ds)
+    mod = M.snapshot_all()
     for i, url in enumerate(urls):
         got = F.call(app, url)
+        mod = served(ctx, spec, url, mod)
         fresh_app, _, _ = F.make_app(spec)
         exp = F.call(fresh_app, url)
         if got != exp:
@@ -228,6 +242,23 @@ def explore(ctx, tier, search=False):
             if rng.random() < 0.5:
                 urls.append(urls[0])
             history_case(ctx, spec, urls, "random")
+    # (o') module-level state: a container of a pydap module changed while a request was served = a store outside
+    # `Owned t`; the code no longer has the discipline the noninterference theorem assumes.  Recorded as a
+    # disagreement with the model (whose program stores only into objects of the request), then searched for a
+    # wrong response with line-level schedules aimed at the functions that touch the container.
+    if _BREAKS:
+        labels = sorted(set(b["label"] for b in _BREAKS))
+        for label in labels:
+            first = [b for b in _BREAKS if b["label"] == label]
+            ctx.corr_disagreements.append({
+                "function": "ownership discipline: module-level state %s written while serving a request" % label,
+                "line": first[0]["url"], "impl": "store into %s (%d requests did)" % (label, len(first)),
+                "model": "every store goes to an object allocated by the request",
+                "meta": {"spec": first[0]["spec"], "urls": sorted(set(b["url"] for b in first))[:8]}})
+        ctx.notes.append("module-level state written while serving: %s" % ", ".join(labels))
+        S.targeted(ctx, rng, list(_BREAKS), search=search)
+        del _BREAKS[:]
+    ctx.extra["module_level_containers_watched"] = len(M.roots())
     # (b) schedules
     S.explore(ctx, tier, rng, specs, search=search)
 
@@ -239,9 +270,12 @@ def run(ctx):
                 "non-trivial when it is answered 200; a history when it has >= 2 requests; a schedule when it has "
                 ">= 1 preemption; distinct by (dataset, request list, schedule)")
     ctx.assumptions = [
-        "C13: the model's atomic step is one logged store; interleavings below that granularity (bytecode "
-        "atomicity, numpy/webob C code releasing the GIL) are outside the model and only exercised by the "
-        "deterministic scheduler at pydap call granularity",
+        "C13: the model's atomic step is one logged store; interleavings below source-line granularity (bytecode "
+        "atomicity, numpy/webob C code releasing the GIL) are outside the model; the deterministic scheduler "
+        "switches threads at pydap function entries/generator resumptions and between any two source lines of "
+        "pydap frames",
+        "C13: module-level state = mutable containers reachable from loaded pydap.* modules (globals, class "
+        "attributes, function defaults/closures/attributes); re/functools/import caches are not scanned",
         "C13: allocation identity is tracked by the harness through DapType.__init__ and tracking container "
         "subclasses; responses under tracing are compared with untraced ones on every case",
         "C13: malformed requests and the response/ssf-eval stages are covered by the ownership oracle and the "
